@@ -114,6 +114,14 @@ func buildUniverse() []Obj {
 	} {
 		add(w(num("sbyte", "5")), w(num("double", "5.0")), w(num("octet", "200")), w(num("ubyte", "200")))
 	}
+	// the empty list reached through operations (the object nil through other routes)
+	nilBy := func(src string) Obj { return Obj{K: "nil", V: src} }
+	add(nilBy("(list)"), nilBy("(cdr (list 1))"), nilBy("(quote ())"), nilBy("(remove 1 (list 1))"), nilBy("(coerce \"\" (quote list))"), nilBy("(reverse nil)"),
+		list(fix(1), nilBy("(cdr (list 1))")), list(fix(1), objNil), vec(nilBy("(list)")), dot(fix(1), str("x")), list(sym("nil1"), objNil))
+	// tables holding nil values: same size, other keys; a stored nil against no entry
+	add(tab(fix(1), objNil), tab(fix(1), objNil), tab(fix(2), objNil), tab(sym("x"), objNil, fix(1), str("a")), tab(sym("y"), objNil, fix(1), str("a")),
+		tab(fix(1), objNil, fix(2), objNil), tab(fix(1), objNil, fix(3), objNil), tab(fix(1), fix(0)), tab(str("k"), objNil), tab(chr("k"), objNil),
+		inst("c16-k", objNil), inst("c16-k", objNil), inst("c16-k2", objNil), vec(objNil, objNil), arr("1x1", objNil), arr("1x2", objNil, objNil))
 	return u
 }
 
@@ -144,17 +152,17 @@ var numFamilies = [][]Obj{
 // nearMiss maps a number to values that differ from it but collide with it
 // under a lossy conversion; used to derive related objects.
 var nearMiss = map[string][]Obj{
-	"fix:" + p53b:       {num("double", p53+".0"), num("fix", p53)},
-	"fix:" + p53:        {num("fix", p53b)},
-	"double:" + p53 + ".0": {num("fix", p53b)},
-	"ratio:1/10":        {num("double", "0.1"), num("single", "0.1")},
-	"double:0.1":        {num("ratio", "1/10"), num("single", "0.1")},
-	"single:0.1":        {num("ratio", "1/10"), num("double", "0.1")},
-	"ratio:1/3":         {num("double", "0.3333333333333333")},
+	"fix:" + p53b:               {num("double", p53+".0"), num("fix", p53)},
+	"fix:" + p53:                {num("fix", p53b)},
+	"double:" + p53 + ".0":      {num("fix", p53b)},
+	"ratio:1/10":                {num("double", "0.1"), num("single", "0.1")},
+	"double:0.1":                {num("ratio", "1/10"), num("single", "0.1")},
+	"single:0.1":                {num("ratio", "1/10"), num("double", "0.1")},
+	"ratio:1/3":                 {num("double", "0.3333333333333333")},
 	"double:0.3333333333333333": {num("ratio", "1/3")},
-	"fix:16777217":      {num("single", "16777216.0"), fix(16777216)},
-	"fix:16777216":      {fix(16777217)},
-	"single:16777216.0": {fix(16777217)},
+	"fix:16777217":              {num("single", "16777216.0"), fix(16777216)},
+	"fix:16777216":              {fix(16777217)},
+	"single:16777216.0":         {fix(16777217)},
 }
 
 func nearOf(r *rand.Rand, o Obj) Obj {
@@ -174,8 +182,6 @@ func nearOf(r *rand.Rand, o Obj) Obj {
 	}
 	return o.withC(kids)
 }
-
-
 
 var strFamilies = [][]Obj{
 	{str("a"), str("A")}, {str("abc"), str("ABC"), str("Abc")}, {str("x1"), str("X1")}, {str("")}, {str("é"), str("É")},
